@@ -91,27 +91,20 @@ def run(ctx):
                 c = int(r[2])
                 return (r[1] == "<" and c <= lim) or (r[1] == "<=" and c <= lim - 1)
             ctx.check(r2, paths.guarded(init, s["node"], fits), key(init, "width%d-fits" % wv), init.where(s["node"]), "width %d is selected without a dominating test that the largest table entry is below %d: the entry for equal arguments would be truncated" % (wv, lim))
-    nsw = 0
+    # every table access happens where the width is known to be the element width it uses, whether the
+    # code selects by switch or by an if-chain; each function covers every width logmath_init can select
+    is_width = lambda fn, n_: fn.canon(n_, subst=False).endswith("width")
     for f in (init, add):
-        for sw in f.find("Switch"):
-            sel = f.canon(f.ch(sw)[0], subst=False)
-            if not sel.endswith("width"):
-                continue
-            nsw += 1
-            labels = set()
-            for c in f.find("Case", root=sw):
-                v = f.nodes[c].get("v")
-                labels.add(v)
-                for (s, w) in table_subscripts(f):
-                    # subscripts belonging to this case: nearest enclosing Case
-                    if f.enclosing(s, ("Case", "Default")) == c:
-                        ctx.check(r2, w == v, key(f, "case%s@switch%d" % (v, nsw)), f.where(s), "in `case %s` the table is accessed through a %s-byte element pointer" % (v, w))
-            ctx.check(r2, labels == widths, key(f, "labels@switch%d" % nsw), f.where(sw), "width switch handles %s but logmath_init can select %s" % (sorted(labels), sorted(map(str, widths))))
-    ctx.check(r2, nsw == 3, "logmath:width-switches", init.where(init.root), "expected 3 width switches (prev read, store, lookup), found %d" % nsw)
-    # every table subscript sits inside a width case
-    for f in (init, add):
-        for (s, w) in table_subscripts(f):
-            ctx.check(r2, f.enclosing(s, ("Case",)) is not None and w is not None, key(f, "in-case:%d" % w if w else "in-case"), f.where(s), "log-add table accessed outside a width case / without an element-width cast")
+        covered = {}
+        for (s_, w) in table_subscripts(f):
+            okw = w is not None and paths.guarded_equal(f, s_, is_width, w)
+            ctx.check(r2, okw, key(f, "in-case:%s@%d" % (w, f.line(s_))), f.where(s_), "the log-add table is accessed through a %s-byte element pointer where the table's width is not known to be %s" % (w, w))
+            if okw:
+                kind = "store" if (f.k(f.up(s_)) == "Assign" and f.strip(f.ch(f.up(s_))[0]) == s_) else "read"
+                covered.setdefault(kind, set()).add(w)
+        for kind, ws in sorted(covered.items()):
+            ctx.check(r2, ws == widths, key(f, "labels:" + kind), f.where(f.root), "table %ss handle widths %s but logmath_init can select %s" % (kind, sorted(ws), sorted(map(str, widths))))
+        ctx.check(r2, bool(covered), key(f, "width-switches"), f.where(f.root), "no width-selected table access found")
     al = [s for s in paths.field_stores(init, "logadd_s", "table")]
     sz = [s for s in paths.field_stores(init, "logadd_s", "table_size")]
     okal = len(al) == 1 and len(sz) == 1
@@ -216,22 +209,22 @@ def run(ctx):
 
     # ---- two passes of the table builder --------------------------------------------------------
     r6 = ctx.rule("TWIN.table-passes", "the sizing pass and the filling pass of logmath_init compute the same entry value, decay and stop condition; entries are stored at i >> shift only when still zero", floor=5)
-    loops = init.find("For")
+    loops = sorted(init.find("For") + init.find("While"), key=lambda l_: init.line(l_))      # for (;;) or while (1)
     sig = []
     for l in loops:
-        body = init.ch(l)[3]
+        body = init.ch(l)[3] if init.k(l) == "For" else init.ch(l)[1]
         vs = {init.nodes[v]["name"]: init.canon(init.ch(v)[0], subst=False) for v in init.find("Var", root=body) if init.ch(v)}
         dec = sorted((s["path"], s["op"], init.canon(s["rhs"], subst=False)) for s in paths.stores(init, body) if s["path"] == "byx")
         brk = []
         for b in init.find("Break", root=body):
-            if init.enclosing(b, ("Switch",)) is not None and init.enclosing(b, ("Switch",)) > l - 100000 and init.enclosing(init.enclosing(b, ("Switch",)), ("For",)) == l:
+            if init.enclosing(b, ("Switch",)) is not None and init.enclosing(b, ("Switch",)) > l - 100000 and init.enclosing(init.enclosing(b, ("Switch",)), ("For", "While")) == l:
                 continue
             brk.append([paths.rel(init, c, pol, subst=False) for (s0, d0, c, pol) in init.cfg.cond_edges() if d0 == paths.pos_of(init, b)[0]])
         sig.append(({k_: v for k_, v in vs.items() if k_ in ("lobyx", "k")}, dec, brk))
     ctx.check(r6, len(sig) == 2 and sig[0] == sig[1] and "k" in sig[0][0] and sig[0][1], key(init, "passes"), init.where(init.root), "sizing pass %s differs from filling pass %s" % (sig[0] if sig else None, sig[1] if len(sig) > 1 else None), str(sig[0]) if sig else "")
     resets = [s for s in paths.stores(init) if s["path"] == "byx" and s["op"] == "=" and init.canon(s["rhs"], subst=False) == "1"]
     ctx.check(r6, len(resets) == 2, key(init, "byx-reset"), init.where(init.root), "byx is not reset to 1.0 before each pass")
-    idxs = set(init.canon(init.ch(s)[1], subst=False) for (s, w) in table_subscripts(init))
+    idxs = set(init.canon(init.ch(s)[1]) for (s, w) in table_subscripts(init))     # a hoisted `idx = i >> shift` reads the same
     ctx.check(r6, idxs == {"(i >> shift)"}, key(init, "index"), init.where(init.root), "table entries are read/written at %s" % sorted(idxs))
     for st in paths.stores(init):
         if st["kind"] == "Subscript" and "table" in st["path"]:
